@@ -13,7 +13,7 @@ non-atomic registration: monotone mixes); generated facts: `Gen/C15.lean` (`extr
 All statements hold for EVERY schedule (`List Lbl`, any length, any number of threads, any interleaving of
 lookup steps, registrar steps and spawns), every application (`cfg`: scan orders of any length) and every
 initial registration state.  The protocol the theorems are about is `sourceProto`, assembled from the facts the
-translator extracts from the source on every run; `source_protocol` (by `decide`) says it is the designed one.
+translator extracts from the tree under test on every run (by probing its code); `source_protocol` (by `decide`) says it is the designed one.
 
 What is NOT covered (level "partial" in the manifest): CPython's memory model, the GIL and zope's registry
 locking are trusted — each modelled step is assumed atomic; one registrar at a time.
@@ -26,21 +26,24 @@ namespace Pyr.Cache
 def sourceProto : Proto :=
   ⟨Gen.C15.clears, Gen.C15.swapLast, Gen.C15.freshDict, Gen.C15.singleRead, Gen.C15.cacheEmpty⟩
 
-/-- GENERATED OBLIGATION.  The source has the shape the model assumes: `add_view.register` clears the cache,
-unconditionally, as its last statement after every `register_view(...)` (modify BEFORE swap);
-`_clear_view_lookup_cache` assigns a NEW dict; `_find_views` reads `registry._view_lookup_cache` exactly once and
-probes and writes through that local with the same key; the write is under `if views:` and under
-`with registry._lock:`; the probe precedes the scan loop, the scan calls `registered` inside the loop, the
-function returns the probed/filled local. -/
+/-- GENERATED OBLIGATION.  The tree under test behaves as the model assumes (facts extracted by `extract/c15.py` by
+RUNNING its code on a finite probe domain — `_find_views` against a recording registry, a real `Registry`, a real
+`Configurator` over seven kinds of view registration — so they survive behaviour-preserving refactorings): every
+registration calls the cache clear, and as the last thing it does, after every adapter mutation (modify BEFORE
+swap); the clear installs a NEW empty dict object; `_find_views` reads `registry._view_lookup_cache` exactly once
+per call and probes and writes that dict with the same key; a lookup that finds nothing writes nothing; the write
+happens with `registry._lock` held; the probe precedes the adapter lookups, which are the SRO product × view types
+read one by one; the list returned is the one cached. -/
 theorem source_protocol :
     Gen.C15.recognised = true ∧ sourceProto = Proto.good ∧ Gen.C15.writeUnderLock = true ∧
     Gen.C15.probeBeforeScan = true ∧ Gen.C15.scanInLoop = true ∧ Gen.C15.returnsLocal = true ∧
     Gen.C15.fallbackFreshDict = true ∧ Gen.C15.lockIsLock = true ∧ 0 < Gen.C15.registerViewCalls := by decide
 
-/-- GENERATED OBLIGATION.  The cache key determines the scan: every parameter of `_find_views` that the scan loop
-reads (directly or through a local computed from it) is a field of the key tuple, or `registry` itself.  This is
-what makes `Cfg.KeyFaithful` — the hypothesis of every theorem below — true of the source.  (Until commit
-fc67717 the key was `(request_iface, context_iface, view_name)` and this obligation was false: fixed finding
+/-- GENERATED OBLIGATION.  The cache key determines the scan: every input of `_find_views` whose change alone changes
+the adapter lookups (probed: classifier, view types, request interface, context interface, view name) is
+distinguished by the cache key (probed: a second lookup differing only in it is not answered from the first one's
+entry).  This is what makes `Cfg.KeyFaithful` — the hypothesis of every theorem below — true of the source.  (Until
+commit fc67717 the key was `(request_iface, context_iface, view_name)` and this obligation was false: fixed finding
 F-C15a, see `key_collision_witness`.) -/
 theorem source_key_covers_scan : Gen.C15.keyCoversScan = true := by decide
 
